@@ -114,6 +114,9 @@ StepPeriodAlgebra(e) ==
   /\ (Has(e, "eq_copy") => Check(e.eq_copy /\ e.ne_changed, "period_equality_is_componentwise"))
   /\ (Has(e, "has_date") => Check(e.has_date = (\E i \in 1..4 : e.p[i] # 0) /\ e.has_time = (\E i \in 5..10 : e.p[i] # 0), "period_component_kinds"))
 
+\* the same arithmetic after another year was asked about first (caches emptied before both runs): same answers
+StepHist(e) == Check(~Has(e, "exc") /\ e.res = e.pure, "date_arithmetic_independent_of_what_was_asked_before")
+
 Init == l = 1
 Next == /\ l <= Len(Events) /\ l' = l + 1
         /\ LET e == Events[l] IN
@@ -121,6 +124,6 @@ Next == /\ l <= Len(Events) /\ l' = l + 1
              [] e.op = "plus_years" -> StepPlusYears(e) [] e.op = "between" -> StepBetween(e)
              [] e.op = "normalize" -> StepNormalize(e) [] e.op = "to_duration" -> StepToDuration(e)
              [] e.op = "date_period" -> StepDatePeriod(e) [] e.op = "period_algebra" -> StepPeriodAlgebra(e)
-             [] e.op = "ym_plus" -> StepPlusMonths(e)
+             [] e.op = "ym_plus" -> StepPlusMonths(e) [] e.op = "hist" -> StepHist(e)
 Spec == Init /\ [][Next]_l
 =============================================================================
